@@ -11,7 +11,7 @@ def check(run):
     verify.verify(run, c.E, c.contracts["rt:images.Image"])
     verify.verify(run, c.E, c.contracts["ser:composeinfo.Compose"], only=("documented_layout", "other_keys_unchanged", "object_unchanged"))
     verify.verify(run, c.E, c.contracts["rt:composeinfo.Compose"])
-    for k in ("ser:common.Header", "de:common.Header", "meth:images.Images.serialize", "meth:images.Images.deserialize"):
+    for k in ("ser:common.Header", "de:common.Header", "rt:images.Images"):
         if k in c.contracts:
             verify.verify(run, c.E, c.contracts[k])
     n = 150 if run.tier == "quick" else 4000
@@ -19,5 +19,7 @@ def check(run):
                         "0-3 variants x 1-2 arches x 1-3 images, every type/format pair, null/non-null volume id and implanted md5, sizes > 2^32, "
                         "unified images with additional variants, the same Image object under several cells; %d seeds" % n)
     run.assume("A1: json.dump(indent=4, sort_keys=True) is a function of the JSON value and json.load inverts it on str-keyed JSON values")
-    run.note("proved: the per-image writer/reader (all 15 attributes) and the compose section; the per-cell loops of Images.serialize/"
-             "deserialize are covered by the bounded stand-in only")
+    run.note("proved: the per-image writer/reader (all 15 attributes), the compose section, and the manifest-level cycle Images.serialize -> "
+             "Images.deserialize (through the real add() with its identity scan) on the shapes {V1:{A:{I1,I2}}, V2:{A:{I1}}} (same object under "
+             "two cells) and {V1:{A:{I1}}, V2:{A:{I3}}} (paths may coincide across cells), every value symbolic, both iteration orders; more "
+             "cells / images per cell and the JSON text layer (byte-identical second dump) are covered by the bounded stand-in")
